@@ -10,11 +10,12 @@ import (
 )
 
 // Inductive step for stake / unstake / harvest from an arbitrary pool state (one reward denom):
-//   C05: pool total and farmer record move by exactly the amount; escrow moves by exactly the amount;
-//        the farmer's wallet moves by exactly the amount (principal) plus the reward figure.
-//   C06: released = rewardPerBlock*(h-last) iff somebody is staked and h > last, else 0;
-//        remaining falls by released, the collector gains released minus what is paid;
-//        paid = floor(rps'*locked) - debt; new debt = floor(rps'*locked').
+//
+//	C05: pool total and farmer record move by exactly the amount; escrow moves by exactly the amount;
+//	     the farmer's wallet moves by exactly the amount (principal) plus the reward figure.
+//	C06: released = rewardPerBlock*(h-last) iff somebody is staked and h > last, else 0;
+//	     remaining falls by released, the collector gains released minus what is paid;
+//	     paid = floor(rps'*locked) - debt; new debt = floor(rps'*locked').
 func verifFarmStep(op int) {
 	verifExpect("done", "refused")
 	h := int64(20)
@@ -55,7 +56,10 @@ func verifFarmStep(op int) {
 	case 0:
 		err, _ = e.verifDeliver(func() error { _, err := e.k.Stake(ctx, e.poolID, sdk.Coin{Denom: fmLpt, Amount: amt}, e.a); return err })
 	case 1:
-		err, _ = e.verifDeliver(func() error { _, err := e.k.Unstake(ctx, e.poolID, sdk.Coin{Denom: fmLpt, Amount: amt}, e.a); return err })
+		err, _ = e.verifDeliver(func() error {
+			_, err := e.k.Unstake(ctx, e.poolID, sdk.Coin{Denom: fmLpt, Amount: amt}, e.a)
+			return err
+		})
 	case 2:
 		err, _ = e.verifDeliver(func() error { _, err := e.k.Harvest(ctx, e.poolID, e.a); return err })
 	}
@@ -150,7 +154,10 @@ func VerifC05_History() {
 	e.bank.fund(e.b, fmLpt, sB)
 	gaps := func(n string) int64 { return int64(verifChoice(n, 3)) + 1 }
 	stake := func(who sdk.AccAddress, amt sdkmath.Int) {
-		err, _ := e.verifDeliver(func() error { _, err := e.k.Stake(e.at(h), e.poolID, sdk.Coin{Denom: fmLpt, Amount: amt}, who); return err })
+		err, _ := e.verifDeliver(func() error {
+			_, err := e.k.Stake(e.at(h), e.poolID, sdk.Coin{Denom: fmLpt, Amount: amt}, who)
+			return err
+		})
 		verifAssert(err == nil, "stake within a running pool succeeds")
 	}
 	stake(e.a, sA1)
@@ -166,7 +173,10 @@ func VerifC05_History() {
 	// but the very same withdrawal succeeds once the collector is topped up by that dust.
 	withdraw := func(who sdk.AccAddress, amt sdkmath.Int, label string) {
 		try := func() error {
-			err, _ := e.verifDeliver(func() error { _, err := e.k.Unstake(e.at(h), e.poolID, sdk.Coin{Denom: fmLpt, Amount: amt}, who); return err })
+			err, _ := e.verifDeliver(func() error {
+				_, err := e.k.Unstake(e.at(h), e.poolID, sdk.Coin{Denom: fmLpt, Amount: amt}, who)
+				return err
+			})
 			return err
 		}
 		err := try()
